@@ -160,23 +160,23 @@ CLAIMED = {
 
 # coverage added while testing against seeded changes (appended to the texts above)
 ADDED = {
- "C01": " Also: tcut->dkmax (tcut_general, dkmax_tcut); ties include finite-mode baths (commensurate and incommensurate), repeated coupling eigenvalues, rotated bases, both unique settings and continued propagation.",
+ "C01": " Also: tcut->dkmax (tcut_general, dkmax_tcut); ties include finite-mode baths (commensurate and incommensurate), repeated coupling eigenvalues, rotated bases, both unique settings and continued propagation. Always run since round 8: a weak bath (alpha=1e-7) with coupling eigenvalues +-1000 against the ohmic closed form.",
  "C02": " Also tied each run: Tempo._influence is bit-exactly influence_matrix of the object's own data (wrappers regenerated: nothing kept between requests), additional correlation times that are not multiples of dt beyond the cut-off, non-smooth (pulsed) time-dependent systems, file-backed process tensors with complex transforms, final-state-only recording, long runs beyond the cut-off.",
- "C03": " Also: initial states in every memory layout; process tensors with exactly one transform (transforms_stored_independently); mixed-key control stacks (every control acts) through C18's oracles.",
+ "C03": " Also: initial states in every memory layout; process tensors with exactly one transform (transforms_stored_independently); mixed-key control stacks (every control acts) through C18's oracles. Always run since round 8: process tensors built from one refilled scratch array (both classes, MPO and cap tensors).",
  "C04": " Also (positivity sector, Props/C04Pos.lean): every sequence of Kraus-form steps keeps the state of Gram form (positive semidefinite), Hermitian and trace-one (kraus_steps_physical, kraus_prefix_physical, gram_is_physical); the driver evaluates IsKrausStep on every propagator get_propagators returns (Kraus operators from the Choi matrix) and runVec against compute_dynamics without a bath; ancilla-built process tensors (rank-3/rank-4, both classes) are physical including positivity at every step; the generated SystemChain site terms are of GKSL form with a first-order Kraus identity (Props/C10Gksl.lean). Positivity with a non-trivial Gaussian bath stays not shown.",
- "C05": " Also tied: decay channels with complex Lindblad operators under complex basis changes, nearly diagonal coupling operators, PT-TEMPO on the rotated problem.",
+ "C05": " Also tied: decay channels with complex Lindblad operators under complex basis changes, nearly diagonal coupling operators, PT-TEMPO on the rotated problem. Always run since round 8: two mean-field species with isospectral non-diagonal couplings; Hadamard- and Fourier-rotated couplings with unique=True.",
  "C08": " Also: which half step's parameters each half-step derivative is computed from is regenerated (derivative_rows_match); mixed parameter tables with M in {2,3}; memo-key completeness; non-Hermitian and callable targets.",
  "C09": " Also: times handed to time-dependent dissipators (plain_dissipator_times, diss_args_current_time), default arguments regenerated (defaults_agree), stationary fields, unique=True with non-diagonal couplings, initial states in every memory layout.",
  "C10": " Also: every gate of a layer acts on its own bond (gate_on_own_bond); a site gate applies C, not its transpose (site_gate_applies_matrix); ChainControl runs with non-symmetric maps; inspection between steps; the generated site Liouvillian is exactly of GKSL form and its Euler step a two-operator Kraus map up to one t^2 term (site_dissipation_is_gksl, site_hamiltonian_is_commutator, site_liouvillian_first_order_kraus).",
- "C11": " Also: the projection onto distinct coupling eigenvalues sums each class (unique_sums_class); repeated eigenvalues, zero and identity coupling operators; repeated compute().",
- "C12": " Also: scale covariance in the time unit (1e-9..1e6) and coupling covariance (alpha down to 1e-6) at full relative strength (these exposed and now guard the repaired defects 68dc845, 86fb9c2); the quadrature variable and epsabs are regenerated (quadrature_variable); memo passes its arguments unchanged; cells straddling the diagonal, rectangles narrower than delta, tiling identities; Matsubara offset triangles.",
+ "C11": " Also: the projection onto distinct coupling eigenvalues sums each class (unique_sums_class); repeated eigenvalues, zero and identity coupling operators; repeated compute(). Always run since round 8: energy-offset invariance (H + c*1, |c|/T up to 30); one commuting model per cut-off type in the search.",
+ "C12": " Also: scale covariance in the time unit (1e-9..1e6) and coupling covariance (alpha down to 1e-6) at full relative strength (these exposed and now guard the repaired defects 68dc845, 86fb9c2); the quadrature variable and epsabs are regenerated (quadrature_variable); memo passes its arguments unchanged; cells straddling the diagonal, rectangles narrower than delta, tiling identities; Matsubara offset triangles. Search since round 8: exponents next to an integer (zeta = 1 +- 2^-40), compact-support CustomCorrelations returning a real 0.0.",
  "C14": " Also: the rollback restores exactly the snapshot (exact flag), both memory regimes; results are read between the calls; a faulted call raises under every progress type; GibbsTempo/PtTempo repeated compute.",
  "C15": " Also: every evaluation of a user callable at a fixed absolute time is regenerated with what is kept of it (all_probes_ok, probe_shift_invariant), including module-level probe tuples; actual->formal role binding across the parameter-guessing helpers and linspace sample times; runs far from t=0; callables whose return type changes in time; localised pulses.",
- "C16": " Also: 'simple' import copies the raw tensors and the stored caps (import_copies_raw); process tensors with exactly one transform, user-defined caps or none; use-overwrite-export histories judged against a fresh object.",
+ "C16": " Also: 'simple' import copies the raw tensors and the stored caps (import_copies_raw); process tensors with exactly one transform, user-defined caps or none; use-overwrite-export histories judged against a fresh object. Always run since round 8: compute_caps() of file-backed vs in-memory process tensors on hand-built tensors with square non-unitary and non-square transforms.",
  "C17": " Also: the writing flag is cleared only by close() and compute_caps() keeps it (flag_cleared_only_by_close, compute_caps_keeps_flag); the reader's flag test and close()'s reset are unconditional (flag_tests_unconditional); every creating entry point x every state of the path (entry_points_no_clobber); writers of another/absent version; cap-less clean closes; interruptions by exceptions.",
  "C18": " Also: zero steps (zero_steps); controls added after PtTebd construction act (controls_added_after_construction_act); float times of one step act in ascending time; interleaved chain stacks; controls next to process tensors; homogeneity/linearity in the control map checked as a relation between real runs.",
- "C19": " Also: __exit__ never suppresses an exception and every failure reaches the caller (exit_never_suppresses, failure_reaches_caller); every executor is with-scoped (spawn table); schedule exploration on the real class from its own source lines; faults in parallel gate layers.",
- "C20": " Also: caller-owned parameter tables are recognised by content, not identity (arg_store_sound); memo placement module/instance under shallow and deep copies; getters never write into stored tensors; caller arrays kept by TwoTimeBathCorrelations; arrays returned by oqupy.operators are fresh (returns_fresh).",
+ "C19": " Also: __exit__ never suppresses an exception and every failure reaches the caller (exit_never_suppresses, failure_reaches_caller); every executor is with-scoped (spawn table); schedule exploration on the real class from its own source lines; faults in parallel gate layers. Since round 8 a gradient runner with eight explicit parameters (late faults in the chain rule).",
+ "C20": " Also: caller-owned parameter tables are recognised by content, not identity (arg_store_sound); memo placement module/instance under shallow and deep copies; getters never write into stored tensors; caller arrays kept by TwoTimeBathCorrelations; arrays returned by oqupy.operators are fresh (returns_fresh). Always run since round 8: used-vs-fresh histories on TwoTimeBathCorrelations and on nearly equal tiny Systems; memoised classes must not override __eq__/__hash__ (translator obligation).",
 }
 
 NOT_YET = "not yet built in this revision (design in DESIGN.md §4); no check is registered, nothing is claimed"
